@@ -35,6 +35,11 @@ try:
 except ImportError:
     ArrayNotFoundError = FileNotFoundError  # type: ignore # zarr-python<=3.1.1
 
+try:
+    from zarr.errors import GroupNotFoundError  # type: ignore
+except ImportError:
+    GroupNotFoundError = FileNotFoundError  # type: ignore
+
 # A unique ID with sensible ordering, used for making directory names
 CONTEXT_ID = f"cubed-{datetime.now().strftime('%Y%m%dT%H%M%S')}-{uuid.uuid4()}"
 
@@ -931,6 +936,7 @@ def already_computed(name, dag, nodes: dict[str, Any]) -> bool:
                 # this check can be expensive since it has to list the directory to find nchunks_initialized
                 if target.ndim == 0 or target.nchunks_initialized != target.nchunks:
                     return False
-            except ArrayNotFoundError:
+            except (ArrayNotFoundError, GroupNotFoundError, FileNotFoundError):
+                # the array (or group of arrays for a structured dtype) has not been created yet
                 return False
     return True
